@@ -773,6 +773,7 @@ func TestReplay(t *testing.T) {
 	run.ReplayOne(t, spec)
 	run.ReplayOne(t, bigSpec)
 	run.ReplayOne(t, sizeSpec)
+	run.ReplayOne(t, concSpec)
 }
 
 // TestExhaustive3x3 enumerates every ordered list of 1..5 points of the 3x3
